@@ -97,6 +97,10 @@ func tokValue(label string) any {
 		return "héllo→日本"
 	case "str-latin1": // a Go string that is not valid UTF-8 (legacy-encoded text): constructors accept any Go string
 		return "caf\xe9 \xff"
+	case "str-dlgtag": // a value that reads like the type tag of the OTHER token kind
+		return "ucan/dlg@1.0.0-rc.1"
+	case "str-invtag":
+		return "ucan/inv@1.0.0-rc.1"
 	case "str-astral": // characters of 1, 2, 3 and 4 bytes, the 4-byte ones at several alignments
 		return "a\U0001F600é\U0001D11E→\U0001F600\U0001F601x\U00010000"
 	case "bytes-empty":
@@ -480,6 +484,15 @@ func BuildToken(spec TokSpec) (any, *fixtures.Key, error) {
 		aud := otherPrincipal(k, 1)
 		if opt("aud", "other") == "self" {
 			aud = k.DID
+		}
+		if opt("aud", "other") == "rsa8192" { // the longest did:key there is (~1430 characters): a synthetic RSA-8192 public key
+			pk, _, err := syntheticRsaPub(8192, 65537)
+			if err != nil {
+				return nil, k, err
+			}
+			if aud, err = did.FromPubKey(pk); err != nil {
+				return nil, k, err
+			}
 		}
 		for _, f := range []string{"nbf", "exp"} {
 			l := opt(f, "absent")
